@@ -28,7 +28,8 @@ class Hang(Exception):
 class Execution:
     """One controlled execution of n thread bodies under a given schedule."""
 
-    def __init__(self, bodies, prefix_dir, first=0, preemptions=()):
+    def __init__(self, bodies, prefix_dir, first=0, preemptions=(), opcodes=False):
+        self.opcodes = opcodes
         self.bodies = bodies
         self.n = len(bodies)
         self.prefix = prefix_dir
@@ -50,13 +51,20 @@ class Execution:
     def _tracer(self, tid):
         prefix = self.prefix
 
+        opcodes = self.opcodes
+
         def local(frame, event, arg):  # noqa: ARG001
-            if event == "line":
+            if event == ("opcode" if opcodes else "line"):
                 self.point(tid)
             return local
 
         def glob(frame, event, arg):  # noqa: ARG001
             if frame.f_code.co_filename.startswith(prefix):
+                if opcodes:
+                    # bytecode granularity: a scheduling point before every instruction, so a thread can
+                    # also be preempted between the load and the store of `x.n += 1`
+                    frame.f_trace_opcodes = True
+                    frame.f_trace_lines = False
                 return local
             return None
 
@@ -218,7 +226,7 @@ class coop_locks:
         threading.Lock, threading.RLock = self.saved
 
 
-def explore(make_bodies, prefix_dir, bound, check, max_executions=None, keep=None):
+def explore(make_bodies, prefix_dir, bound, check, max_executions=None, keep=None, opcodes=False):
     """Iterative preemption bounding over 2+ threads.
 
     make_bodies() -> list of fresh thread bodies (fresh iterators etc. per execution)
@@ -232,12 +240,16 @@ def explore(make_bodies, prefix_dir, bound, check, max_executions=None, keep=Non
     n = len(make_bodies())
 
     def run(first, preemptions):
-        exe = Execution(make_bodies(), prefix_dir, first, preemptions)
+        exe = Execution(make_bodies(), prefix_dir, first, preemptions, opcodes=opcodes)
         exe.run()
         stats["executions"] += 1
         stats["points"] += sum(exe.steps)
         return exe
 
+    if opcodes:
+        # the interpreter switches instruction events on lazily: frames of the very first traced
+        # execution of a process are not all instrumented yet, so one execution is run and discarded
+        Execution(make_bodies(), prefix_dir, 0, (), opcodes=True).run()
     found = []
     seen = set()
     frontier = [(first, ()) for first in range(n)]  # bound 0
